@@ -317,3 +317,189 @@ def alloc_suite(run, scratch, seed, tier, known_tags=("K1", "K2", "K12")):
                     "5 fee kinds x spreads x amounts of both signs (quick: 1800 sampled + 600 random dyadic points; thorough: "
                     "all 9600 + 40000 random); exact close-out amounts mixed in; non-trivial = non-zero amount",
             "samples": [{k: v for k, v in c.items() if k != "_meta"} for c in cases[:1]]}
+
+
+# ---------------------------------------------------------------- C08: schedules of redundant updates / reads
+def _final_state(ic):
+    return ic["steps"][-1]["state"] if ic and ic["steps"] else None
+
+
+def _same_state(a, b):
+    """observable equality (relation R); an idle (flat, skipped) security's private clock, cached price and
+    spread are not observables: reading its price merely brings them up to date earlier"""
+    if a is None or b is None or set(a) != set(b):
+        return False, "keys"
+    idle = {k.split(" ")[0] for k in a if k.endswith(" scal") and a[k][6:7] == ["F"] and b[k][6:7] == ["F"]
+            and a.get(k.split(" ")[0] + " kind") == ["S"]}
+    for k in a:
+        node, fld = k.split(" ")
+        if node in idle and fld in ("now", "scal"):
+            if fld == "scal":
+                ia, ib = [a[k][i] for i in (0, 3, 4, 5)], [b[k][i] for i in (0, 3, 4, 5)]
+                if any(common.close(x, y) < 0 for x, y in zip(ia, ib)):
+                    return False, k
+            continue
+        # relation R (1e-9): re-association of float sums (e.g. coupons swept on the first update of a date)
+        # legitimately moves the last bits
+        if len(a[k]) != len(b[k]) or any(common.close(x, y) < 0 for x, y in zip(a[k], b[k])):
+            return False, k
+    return True, None
+
+
+def idle_cases(rng, n):
+    """histories built around a security that is traded, closed, left idle over one or more date changes and
+    then read (all accessors) while a trade elsewhere is pending"""
+    from gen_engine import hx, dy
+    out = []
+    for i in range(n):
+        nrows = rng.randint(4, 7)
+        fi = rng.random() < 0.6
+        clsA = rng.choice(["coupon", "couponhedge", "fi"]) if fi else rng.choice(["sec", "sec", "coupon"])
+        clsB = rng.choice(["coupon", "sec", "fi"]) if fi else "sec"
+        tree = ["strat", 1, fi, [["sec", 2, clsA, True, hx(1.0), False], ["sec", 3, clsB, True, hx(rng.choice([1.0, 2.0])), False]]]
+        prices = [[2, [hx(dy(rng, 20, 60, 8)) for _ in range(nrows)]], [3, [hx(dy(rng, 20, 60, 8)) for _ in range(nrows)]]]
+        coupons = [[2, [hx(dy(rng, 0, 1, 16)) for _ in range(nrows)]], [3, [hx(dy(rng, 0, 1, 16)) for _ in range(nrows)]]]
+        ops = [["adjust", [], hx(100000.0), True, True, hx(0.0)], ["update", 0],
+               ["transact", [], hx(float(rng.randint(10, 200))), 2, True, None], ["update", 0],
+               ["close", [], 2, True], ["update", 0]]
+        row = 0
+        for _ in range(rng.randint(1, 3)):
+            row = min(nrows - 1, row + 1)
+            ops.append(["update", row])
+        ops.append(["transact", [], hx(float(rng.randint(10, 100))), 3, True, None])        # pending change
+        ops.append(["read", [2], rng.choice(["series", "series", "price", "value"])])
+        if rng.random() < 0.5:
+            ops.append(["transact", [], hx(float(rng.randint(5, 50))), 2, True, None])
+        ops.append(["update", row])
+        out.append({"name": "idle%04d" % i, "nrows": nrows, "intpos": rng.random() < 0.5, "comm": ["none"], "prices": prices,
+                    "bidoffer": None, "coupons": coupons, "cost_long": None, "cost_short": None, "tree": tree, "ops": ops})
+    return out
+
+
+def schedule_suite(run, scratch, seed, n, k_variants=3):
+    """(a) duplicate updates and reads placed right after an update never change the final state;
+       (b) a read on a stale tree returns what it returns after an explicit update, and leaves the same state;
+       (c) rows before the current date never change; (d) no accessor hands out rows after the current date"""
+    import copy
+    import random
+    rng = random.Random(seed * 31 + 7)
+    bases = engine_corr.prune_invalid(gen_engine.gen_cases(seed + 5, n, gen_engine.Profile(p_bad=0.0, p_upd_false=0.2, p_fi_root=0.45)), seed, keep_err=0.0)
+    bases = bases + idle_cases(rng, max(20, n // 4))
+    base_all = [dict(c, dump="all") for c in bases]
+    res0 = engine_corr.run_cases(base_all, scratch)
+    stale_after = {}
+    for r in res0:
+        if r[3]:
+            stale_after[r[0]["name"]] = [st["state"].get("r stale", ["F"])[0] == "T" and st["status"][1] == "ok"
+                                         for st in r[3]["steps"]]
+    variants, links = [], []
+    for c in bases:
+        nodes = gen_engine.paths_of(c["tree"])
+        eager = [p for p, s in nodes if not (s[0] == "sec" and s[5])]
+        for v in range(k_variants):
+            d = copy.deepcopy(c)
+            ops, row = [], None
+            for op in c["ops"]:
+                ops.append(op)
+                if op[0] == "update" and isinstance(op[1], int) and op[1] < c["nrows"]:
+                    row = op[1]
+                    if rng.random() < 0.6:
+                        for _ in range(rng.randint(1, 3)):
+                            ops.append(["update", row])
+                            if rng.random() < 0.7:
+                                ops.append(["read", rng.choice(eager), rng.choice(["value", "weight", "notl", "price", "series"])])
+            d["ops"] = ops
+            d["name"] = "%s_dup%d" % (c["name"], v)
+            d["dump"] = "last"
+            variants.append(d)
+            links.append(("dup", c["name"], d["name"]))
+        # (b): a pair differing by one explicit update before a read, placed where the implementation's tree is stale
+        st = stale_after.get(c["name"], [])
+        cand = [i for i in range(2, len(c["ops"])) if i + 1 < len(st) and st[i + 1]]
+        if cand:
+            i = rng.choice(cand)
+            row = max([op[1] for op in c["ops"][:i + 1] if op[0] == "update" and isinstance(op[1], int)] or [0])
+            secs = [p for p, sp in nodes if sp[0] == "sec" and not sp[5]]
+            tgt = rng.choice(secs) if secs and rng.random() < 0.6 else rng.choice(eager)
+            rd = ["read", tgt, rng.choice(["value", "weight", "notl", "series", "series"])]
+            a, b = copy.deepcopy(c), copy.deepcopy(c)
+            a["ops"] = c["ops"][:i + 1] + [rd] + c["ops"][i + 1:]
+            b["ops"] = c["ops"][:i + 1] + [["update", row], rd] + c["ops"][i + 1:]
+            a["name"], b["name"] = c["name"] + "_rdA", c["name"] + "_rdB"
+            variants += [a, b]
+            links.append(("read", a["name"], b["name"], i + 1))
+    res = res0 + engine_corr.run_cases(variants, scratch)
+    by = {r[0]["name"]: r for r in res}
+    tally = {"equal": 0, "drift": 0, "diff": 0}
+    first_diff = None
+    for r in res:
+        tally[r[1]] += 1
+        if r[1] == "diff" and first_diff is None:
+            first_diff = r
+    fails = []
+    for ln in links:
+        if ln[0] == "dup":
+            a, b = by[ln[1]], by[ln[2]]
+            if not a[3] or not b[3]:
+                continue
+            if a[3]["steps"][-1]["status"][1] != "ok" or b[3]["steps"][-1]["status"][1] != "ok":
+                if a[3]["steps"][-1]["status"][1:] != b[3]["steps"][-1]["status"][1:]:
+                    fails.append((b[0], "redundant updates/reads change the outcome: %s vs %s"
+                                  % (a[3]["steps"][-1]["status"], b[3]["steps"][-1]["status"])))
+                continue
+            fa, fb = _final_state(a[3]), _final_state(b[3])
+            ok, key = _same_state(fa, fb)
+            if not ok:
+                fails.append((b[0], "redundant updates/reads change the final state (%s)" % key))
+        else:
+            a, b, k = by[ln[1]], by[ln[2]], ln[3]
+            if not a[3] or not b[3] or len(a[3]["steps"]) <= k + 1 or len(b[3]["steps"]) <= k + 2:
+                continue
+            ra, rb = a[3]["steps"][k + 1]["status"], b[3]["steps"][k + 2]["status"]
+            if ra[1] == "ok" and rb[1] == "ok":
+                if common.close(ra[2], rb[2]) < 0:
+                    fails.append((a[0], "a read on a stale tree returns %s, after an explicit update %s" % (ra[2], rb[2])))
+                if ra[2] == "0x0p+0" and a[0]["ops"][k][2] == "series":
+                    fails.append((a[0], "an accessor hands out rows beyond the current date"))
+                ok, key = _same_state(a[3]["steps"][k + 1]["state"], b[3]["steps"][k + 2]["state"])
+                if not ok:
+                    fails.append((a[0], "state after a read differs from state after update+read (%s)" % key))
+    # (c) append-only: rows before the clock never change (implementation histories of the base runs)
+    for c in bases:
+        ic = by[c["name"]][3]
+        if not ic:
+            continue
+        for k in range(2, len(ic["steps"])):
+            prev, cur = ic["steps"][k - 1]["state"], ic["steps"][k]["state"]
+            now = prev.get("r now", ["-"])[0]
+            now2 = cur.get("r now", ["-"])[0]
+            if now == "-" or now2 == "-" or int(now2) < int(now):
+                continue
+            lim = int(now)
+            for key, toks in cur.items():
+                fld = key.split(" ")[1]
+                if (fld.startswith("h_") or fld.startswith("hg_")) and key in prev:
+                    if any(common.close(x, y) < 0 for x, y in zip(prev[key][:lim], toks[:lim])):
+                        fails.append((dict(c, ops=c["ops"][:k]), "a row before the current date changed: %s" % key))
+                        break
+            # (d) the series read op
+            st = ic["steps"][k]["status"]
+            if c["ops"][k - 1][0] == "read" and c["ops"][k - 1][2] == "series" and st[1] == "ok" and common.tok_val(st[2]) == 0.0:
+                fails.append((dict(c, ops=c["ops"][:k]), "an accessor hands out rows beyond the current date"))
+    for cc, msg in fails[:3]:
+        run.violation({"suite": "schedule_suite", "case": {k: v for k, v in cc.items()}, "failures": [msg]},
+                      "C08 oracle fails on the implementation: " + msg)
+    if first_diff is not None:
+        c, v, d, ic, mc = first_diff
+        run.violation({"suite": "schedule_suite", "case": c, "difference": d, "n_disagreeing_cases": tally["diff"],
+                       "broken": "correspondence schedule_suite (Engine.v/Ops.v vs bt/core.py)"},
+                      "correspondence schedule_suite: implementation and model disagree on %d of %d histories; first: %s"
+                      % (tally["diff"], len(res), json.dumps(d)[:300]))
+    return {"evaluations": len(res), "distinct_nontrivial": len(variants),
+            "traces_validated_against_impl": tally["equal"] + tally["drift"], "bit_drift": tally["drift"],
+            "disagreements": tally["diff"], "oracle_failures": len(fails), "bases": len(bases),
+            "rule": "each base history replayed with duplicated updates and reads (value, weight, notional, price, series "
+                    "lengths) placed right after updates: final states must be identical; pairs 'read on a stale tree' vs "
+                    "'explicit update then read': returned values and states identical; rows before the clock compared "
+                    "between consecutive steps; non-trivial = every variant",
+            "samples": [{"name": v["name"], "ops": v["ops"][:10]} for v in variants[:2]]}
